@@ -351,6 +351,9 @@ func (g *Generator) writeUnwrapImports(gf *protogen.GeneratedFile) {
 	gf.P(`"google.golang.org/protobuf/encoding/protojson"`)
 	gf.P(")")
 	gf.P()
+	// Wrappers of scalars only are coded without protojson: keep the import used
+	gf.P("var _ = protojson.Marshal")
+	gf.P()
 }
 
 func (g *Generator) generateUnwrapMarshalJSON(gf *protogen.GeneratedFile, containing *UnwrapContainingMessage) {
